@@ -1,7 +1,7 @@
 CONSTANTS NP = 2
   NB = 2
   MaxEntries = 2
-  Xids <- MCXids2
+  Xids <- MCXids1
   RotXid = FALSE
   Cap = 2
   D = 0
